@@ -35,7 +35,19 @@ def gen_case(rng, tier, idx):
     prof = dict(PROFILE)
     if idx % 6 != 5:
         prof["weather_extra_after"] = 740   # room for uses with a shifted window
+        prof["weather_extra_before"] = 740
     spec = gen_spec(rng, prof)
+    from ..domain import CROP_INFO as _CI
+    thermal = _CI[spec["crop"]["name"]]["CalendarType"] == 2
+    if thermal and rng.random() < 0.7:
+        # thermal-time crop with the latest harvest date stated by the user (the derived one is written onto the user's Crop -
+        # a recorded finding - and would otherwise stand in front of every other difference after a use for another window)
+        import datetime as _dt
+        m, d = [int(x) for x in spec["crop"]["planting_date"].split("/")]
+        h = _dt.date(2001, m, d) + _dt.timedelta(days=_CI[spec["crop"]["name"]]["MaturityCD"] + rng.choice([45, 80, 120]))
+        if h.year == 2001 or parse_date(spec["end"]).year > parse_date(spec["start"]).year + (1 if spec["crop"]["planting_date"] < spec["start"][5:] else 0):
+            # (a season that crosses New Year in a window that does not is a window without a season: recorded C16 finding)
+            spec["crop"]["harvest_date"] = f"{h.month:02d}/{h.day:02d}"
     enum = (idx % 6 == 5)
     if enum:
         # short window so that every fault point can be enumerated
@@ -66,6 +78,11 @@ def gen_case(rng, tier, idx):
             hist.append({"op": "abandon", "model": "new" if other else model, "steps": t + 1, "shift_years": other})
         else:
             hist.append({"op": "crash", "model": model, "t": t, "pidx": rng.randrange(18)})
+    if rng.random() < (0.7 if thermal else 0.3):
+        # the very first use of the objects is for another window: whatever the first initialisation leaves on them comes from there
+        y = rng.choice([-2, -1, 1, 2])
+        hist.insert(0, rng.choice([{"op": "run", "model": "new", "how": "till", "shift_years": y},
+                                   {"op": "abandon", "model": "new", "steps": rng.choice([1, 5, 60]), "shift_years": y}]))
     hist.append({"op": "run", "model": rng.choice(["new", "same"]), "how": "till"})
     return {"spec": spec, "enumerate": False, "history": hist}
 
